@@ -336,7 +336,8 @@ SendRecoveryRequest(x) ==
   LET S == IF ReqRcvd(x) /\ ~HasAllTx(x)
            THEN (LET y == ProcessMissingTx(x) IN IF HasAllTx(y) /\ ~W("no_answer_after_rerequest") THEN OnAllTransactions(y) ELSE {y})
            ELSE {x}
-  IN {Bcast(s, [t |-> "RecoveryRequest", h |-> s.h, v |-> s.v, from |-> MyFrom(s), ts |-> s.env.now]) : s \in S}
+  IN {IF s.blockDone THEN s   \* the block was accepted while answering: nothing to recover
+      ELSE Bcast(s, [t |-> "RecoveryRequest", h |-> s.h, v |-> s.v, from |-> MyFrom(s), ts |-> s.env.now]) : s \in S}
 
 \* dbft.go onPrepareRequest
 OnPrepareRequest(x, m) ==
